@@ -229,3 +229,103 @@ Proof.
     + congruence.
   - rewrite (H2 HS1 HD1) in E. exact (HD p m d E).
 Qed.
+
+(* ---- running the whole spec again (C04 for a spec) ---- *)
+From RJ Require Import Proofs.IdemProofs Proofs.IdemMain Proofs.ConfinedMain Proofs.CrashMain.
+
+(* run_top_twice with an arbitrary second ancestor state *)
+Lemma run_top_again cfg S D a ans bits ex ft a2 ans2 bits2 ft2 :
+  unique_keys S -> wf_fs S -> unique_keys D -> wf_fs D -> src_times_set S -> links_utf8 S ->
+  let r := run_top cfg S D a ans bits ex ft in
+  r_ok r = true -> r_skipped r = [] -> r_root_skipped r = false -> cf_dry cfg = false -> cf_fl cfg = Unix ->
+  b_same (cf_b cfg) = BSkip ->
+  let r2 := run_top cfg S (d_fs (r_dest r)) a2 ans2 bits2 ex ft2 in
+  r_ok r2 = true /\ d_fs (r_dest r2) = d_fs (r_dest r) /\ filter mutating (r_dest_trace r2) = [] /\
+  (forall p, ~ In (CGetFileContent p) (r_src_trace r2)) /\ r_prompts r2 = [] /\ stats_nothing (r_stats r2) = true.
+Proof.
+  intros HuS HwS HuD HwD Hts Hlk. cbv zeta. intros Hok Hsk Hrs Hdry Hfl Hsame.
+  pose proof (run_top_never_through cfg S D a ans bits ex ft HuS HwS HuD HwD) as Hnt.
+  destruct (run_top_wfu cfg S D a ans bits ex ft HuD HwD) as [Hw' Hu'].
+  set (r := run_top cfg S D a ans bits ex ft) in *.
+  destruct (sync_twice_from now_far (excl_incl ex) normalize_unix chunk_real chunk_real_ok Unix
+              cfg S (world D a []) ans bits _ _ ft (world (d_fs (r_dest r)) a2 []) ans2 bits2
+              (list_fs now_far (excl_incl ex) normalize_unix (d_fs (r_dest r))) ft2
+              (list_fs_valid now_far (excl_incl ex) normalize_unix S HuS HwS)
+              (list_fs_valid now_far (excl_incl ex) normalize_unix D HuD HwD)
+              HwS HwD Hts (links_utf8_roundtrip S Hlk) eq_refl Hok Hsk Hrs Hdry Hnt Hfl Hsame eq_refl
+              (list_fs_valid now_far (excl_incl ex) normalize_unix (d_fs (r_dest r)) Hu' Hw'))
+    as (T1 & T2 & T3 & T4 & T5 & T6).
+  unfold run_top. repeat split; try assumption. rewrite T2. reflexivity.
+Qed.
+
+(* a sync that does nothing: Ok, no mutating command, no content fetched, no prompt, "Nothing to do" *)
+Definition quiet (r : result) : Prop :=
+  r_ok r = true /\ filter mutating (r_dest_trace r) = [] /\ (forall p, ~ In (CGetFileContent p) (r_src_trace r)) /\
+  r_prompts r = [] /\ stats_nothing (r_stats r) = true.
+
+(* job j is settled in store F: run on F it is quiet and leaves its destination as it is *)
+Definition settled (F : store) (j : job) : Prop :=
+  quiet (run_job j F) /\ d_fs (r_dest (run_job j F)) = sget F (j_dst j).
+
+Lemma run_job_ext j st st' : (forall i, sget st i = sget st' i) -> run_job j st = run_job j st'.
+Proof. intros H. unfold run_job. rewrite !H. reflexivity. Qed.
+
+Lemma settled_spec_noop jobs F : (forall j, In j jobs -> settled F j) ->
+  forall st, (forall i, sget st i = sget F i) ->
+  sp_ok (run_spec jobs st) = true /\ (forall i, sget (sp_store (run_spec jobs st)) i = sget F i) /\
+  length (sp_runs (run_spec jobs st)) = length jobs /\ Forall quiet (sp_runs (run_spec jobs st)).
+Proof.
+  induction jobs as [|j rest IH]; intros Hs st Hext; cbn [run_spec].
+  - cbn. repeat split; auto.
+  - destruct (Hs j (or_introl eq_refl)) as [Hq Hd].
+    rewrite (run_job_ext j st F Hext). destruct Hq as (Hok & Hq). rewrite Hok.
+    assert (Hext' : forall i, sget (sset st (j_dst j) (d_fs (r_dest (run_job j F)))) i = sget F i).
+    { intros i. destruct (Nat.eq_dec i (j_dst j)) as [->|Hne]; [rewrite sget_sset_eq; exact Hd|rewrite sget_sset_ne by exact Hne; apply Hext]. }
+    destruct (IH (fun j' H => Hs j' (or_intror H)) _ Hext') as (I1 & I2 & I3 & I4).
+    cbn [sp_ok sp_store sp_runs length]. repeat split; auto. constructor; [split; assumption|exact I4].
+Qed.
+
+(* Running the spec a second time does nothing: if the first run exited 0, every sync of it ran without skips
+   (no dry run, Unix destination, same-time files skipped), each source had set times and well-formed link texts
+   when it was read, and no sync writes to the destination or the source of an EARLIER sync of the spec (all
+   destinations distinct; a destination may be the source of a later sync: A -> B, B -> C) - then run again on the
+   trees the first run left, every sync returns Ok, sends no mutating command, fetches no content, asks nothing and
+   reports "Nothing to do"; the status is 0 and every tree is as it was. *)
+Theorem spec_twice jobs st :
+  store_ok st ->
+  sp_ok (run_spec jobs st) = true ->
+  Forall (fun t => let j := t_job t in let S := sget (t_store t) (j_src j) in
+            src_times_set S /\ links_utf8 S /\ j_src j <> j_dst j /\
+            r_skipped (t_res t) = [] /\ r_root_skipped (t_res t) = false /\
+            cf_dry (j_cfg j) = false /\ cf_fl (j_cfg j) = Unix /\ b_same (cf_b (j_cfg j)) = BSkip) (spec_trace jobs st) ->
+  (forall pre t post, spec_trace jobs st = pre ++ t :: post ->
+     forall t', In t' post -> j_dst (t_job t') <> j_dst (t_job t) /\ j_dst (t_job t') <> j_src (t_job t)) ->
+  let F := sp_store (run_spec jobs st) in
+  sp_ok (run_spec jobs F) = true /\ (forall i, sget (sp_store (run_spec jobs F)) i = sget F i) /\
+  length (sp_runs (run_spec jobs F)) = length jobs /\ Forall quiet (sp_runs (run_spec jobs F)).
+Proof.
+  intros Hst Hok Hall Hni F.
+  apply settled_spec_noop; [|reflexivity].
+  (* every job of the spec was started (exit 0), so it is in the trace *)
+  destruct (proj1 (spec_ok_iff jobs st) Hok) as [Hlen Hoks].
+  rewrite runs_of_trace, map_length in Hlen.
+  pose proof (trace_jobs jobs st) as Hj. rewrite Hlen, firstn_all in Hj.
+  intros j Hin. rewrite <- Hj in Hin. apply in_map_iff in Hin as (t & <- & Ht).
+  apply in_split in Ht as (pre & post & E).
+  rewrite Forall_forall in Hall. specialize (Hall t). rewrite E in Hall. specialize (Hall (in_elt t pre post)). cbv zeta in Hall.
+  destruct Hall as (Hts & Hlk & Hne & Hsk & Hrs & Hdry & Hfl & Hsame).
+  destruct (spec_final_trees jobs st pre t post E Hne (Hni pre t post E)) as [Fd Fs].
+  fold F in Fd, Fs.
+  destruct (spec_stores_ok jobs st Hst) as [Hsts _]. rewrite Forall_forall in Hsts.
+  assert (Htin : In t (spec_trace jobs st)) by (rewrite E; apply in_elt).
+  specialize (Hsts t Htin).
+  pose proof (trace_is_runs jobs st) as Hr. rewrite Forall_forall in Hr. specialize (Hr t Htin).
+  assert (Hokt : r_ok (t_res t) = true).
+  { rewrite runs_of_trace in Hoks. rewrite forallb_forall in Hoks. apply Hoks. apply in_map. exact Htin. }
+  destruct (Hsts (j_src (t_job t))) as [HwS HuS]. destruct (Hsts (j_dst (t_job t))) as [HwD HuD].
+  unfold run_job in Hr. rewrite Hr in Hsk, Hrs, Hokt, Fd.
+  destruct (run_top_again (j_cfg (t_job t)) _ _ (j_anc (t_job t)) (j_ans (t_job t)) (j_bits (t_job t)) (j_ex (t_job t)) (j_ft (t_job t))
+              (j_anc (t_job t)) (j_ans (t_job t)) (j_bits (t_job t)) (j_ft (t_job t))
+              HuS HwS HuD HwD Hts Hlk Hokt Hsk Hrs Hdry Hfl Hsame) as (T1 & T2 & T3 & T4 & T5 & T6).
+  unfold settled, quiet, run_job. rewrite Fs, Fd. repeat split; assumption.
+Qed.
